@@ -528,4 +528,117 @@ theorem dispatch_rmmr (c : Model.X86.Ctx) (row : Row) (options : BitVec 32) (t0 
         options (r32 i1) m 0 0 := by
   rcases henc with h | h <;> refine ⟨?_, ?_, ?_⟩ <;> simp [dispatch, h, sig3, Op.kind, Op.id, Op.rmSize]
 
+/-! ### class X86Mov: segment-register moves `mov r16|r32|r64, sreg` (8C /r) and `mov sreg, r16|r32|r64` (8E /r) -/
+
+theorem regOkB_sreg (s : BitVec 32) (p : Parsed) (n : Nat) (h1 : 1#32 ≤ s) (hn : n = (s - 1#32).toNat) : regOkB .sreg s.toNat n p = true := by
+  subst hn
+  have h1' : 1 ≤ s.toNat := by simpa [BitVec.le_def] using h1
+  have e : (s - 1#32).toNat + 1 = s.toNat := by
+    have hlt := s.isLt
+    simp only [BitVec.toNat_sub, BitVec.toNat_ofNat]
+    omega
+  simp only [regOkB, regConds, allOk, List.all_cons, List.all_nil, Bool.and_true, beq_iff_eq]
+  exact e
+
+/-- `mov gp, sreg`: [rm = gp, reg = sreg]; ModRM.reg = segment register number - 1 -/
+theorem movFromSreg_formOk (ctx : Spec.X86.Ctx) (rule : Rule) (opcode sid rb : BitVec 32) (kg : RegKind) (fa fb : FormOp)
+    (hm64 : ctx.mode64 = true) (hmode : (rule.modes &&& 2 != 0) = true) (hopc : opcode &&& 0xF7801C00#32 = 0#32)
+    (hkg : PlainKind kg) (hs1 : 1#32 ≤ sid) (hs6 : sid ≤ 6#32) (hb : rb < 16#32)
+    (R : LegRule rule 0 ((opcode >>> 21) &&& 3#32).toNat) (A : LegAgree rule opcode)
+    (hra : fa.role = .rm) (hrb : fb.role = .reg)
+    (hal : alignOps rule.oszEff rule.ops [.reg kg rb.toNat, .reg .sreg sid.toNat] = some [(fa, some (.reg kg rb.toNat)), (fb, some (.reg .sreg sid.toNat))]) :
+    ∃ bytes, emitX86R opcode 0#32 (sid - 1#32) rb 0 0 = .ok bytes ∧ formOk ctx rule [.reg kg rb.toNat, .reg .sreg sid.toNat] {} bytes = true := by
+  have hok : ¬ (extractRex opcode 0#32 ||| (((sid - 1#32) &&& 8#32) >>> 1) ||| ((rb &&& 8#32) >>> 3)) > 0x80#32 := by
+    simp only [extractRex]; bv_decide
+  obtain ⟨bytes, p, hb', hp, P, hR, hB, hi, hrex, hvk⟩ := x86R_parsedO rule opcode 0#32 (sid - 1#32) rb 0 0 hopc (by decide) (by bv_decide) hb hok 8 R A
+  refine ⟨bytes, hb', ?_⟩
+  refine leg_2reg_formOkG ctx rule p _ _ _ kg .sreg fa fb _ _ (by simpa [hm64] using hmode) R (Or.inr ⟨hra, hrb, ?_, ?_⟩) hal (by rw [hm64]; exact hp) P
+  · rw [hB]; exact regOkB_plain kg _ _ p hkg rfl
+  · rw [hR]; exact regOkB_sreg sid p _ hs1 rfl
+
+/-- `mov sreg, gp`: [reg = sreg, rm = gp] -/
+theorem movToSreg_formOk (ctx : Spec.X86.Ctx) (rule : Rule) (opcode sid rb : BitVec 32) (kg : RegKind) (fa fb : FormOp)
+    (hm64 : ctx.mode64 = true) (hmode : (rule.modes &&& 2 != 0) = true) (hopc : opcode &&& 0xF7801C00#32 = 0#32)
+    (hkg : PlainKind kg) (hs1 : 1#32 ≤ sid) (hs6 : sid ≤ 6#32) (hb : rb < 16#32)
+    (R : LegRule rule 0 ((opcode >>> 21) &&& 3#32).toNat) (A : LegAgree rule opcode)
+    (hra : fa.role = .reg) (hrb : fb.role = .rm)
+    (hal : alignOps rule.oszEff rule.ops [.reg .sreg sid.toNat, .reg kg rb.toNat] = some [(fa, some (.reg .sreg sid.toNat)), (fb, some (.reg kg rb.toNat))]) :
+    ∃ bytes, emitX86R opcode 0#32 (sid - 1#32) rb 0 0 = .ok bytes ∧ formOk ctx rule [.reg .sreg sid.toNat, .reg kg rb.toNat] {} bytes = true := by
+  have hok : ¬ (extractRex opcode 0#32 ||| (((sid - 1#32) &&& 8#32) >>> 1) ||| ((rb &&& 8#32) >>> 3)) > 0x80#32 := by
+    simp only [extractRex]; bv_decide
+  obtain ⟨bytes, p, hb', hp, P, hR, hB, hi, hrex, hvk⟩ := x86R_parsedO rule opcode 0#32 (sid - 1#32) rb 0 0 hopc (by decide) (by bv_decide) hb hok 8 R A
+  refine ⟨bytes, hb', ?_⟩
+  refine leg_2reg_formOkG ctx rule p _ _ _ .sreg kg fa fb _ _ (by simpa [hm64] using hmode) R (Or.inl ⟨hra, hrb, ?_, ?_⟩) hal (by rw [hm64]; exact hp) P
+  · rw [hR]; exact regOkB_sreg sid p _ hs1 rfl
+  · rw [hB]; exact regOkB_plain kg _ _ p hkg rfl
+
+def movSregOpc (base : BitVec 32) (kg : RegKind) : BitVec 32 := addPrefixBySize base (kindSize kg)
+
+def entryOkMovSr (e : Entry) : Bool :=     -- [rm = gp, reg = sreg]
+  match e.rule.ops, e.kinds with
+  | [f0, f1], [k0, k1] =>
+    e.enc == 0x2c && (k1 == .sreg && (plainKind k0 && (legRuleOk e.rule 0 ((movSregOpc 0x8C#32 k0 >>> 21) &&& 3#32).toNat && (legAgreeOk e.rule (movSregOpc 0x8C#32 k0) &&
+    (f0.role == .rm && (f1.role == .reg && (noFix f0 && (noFix f1 && (formOpMatches e.rule.oszEff f0 (.reg k0 0) && formOpMatches e.rule.oszEff f1 (.reg .sreg 0))))))))))
+  | _, _ => false
+
+def entryOkMovRs (e : Entry) : Bool :=     -- [reg = sreg, rm = gp]
+  match e.rule.ops, e.kinds with
+  | [f0, f1], [k0, k1] =>
+    e.enc == 0x2c && (k0 == .sreg && (plainKind k1 && (legRuleOk e.rule 0 ((movSregOpc 0x8E#32 k1 >>> 21) &&& 3#32).toNat && (legAgreeOk e.rule (movSregOpc 0x8E#32 k1) &&
+    (f0.role == .reg && (f1.role == .rm && (noFix f0 && (noFix f1 && (formOpMatches e.rule.oszEff f0 (.reg .sreg 0) && formOpMatches e.rule.oszEff f1 (.reg k1 0))))))))))
+  | _, _ => false
+
+theorem movsr_entries_ok : lmovsrChunks.all (fun c => c.all entryOkMovSr) = true := by decide +kernel
+theorem movrs_entries_ok : lmovrsChunks.all (fun c => c.all entryOkMovRs) = true := by decide +kernel
+
+/-- **front_cls_correct, class X86Mov, `mov r16|r32|r64, sreg`**: ALL general-purpose registers 0..15, ALL six segment registers (asmjit ids 1..6) -/
+theorem front_cls_correct_mov_from_sreg (e : Entry) (ch : List Entry) (hch : ch ∈ lmovsrChunks) (he : e ∈ ch)
+    (ctx : Spec.X86.Ctx) (sid rb : BitVec 32) (hm64 : ctx.mode64 = true) (hs1 : 1#32 ≤ sid) (hs6 : sid ≤ 6#32) (hb : rb < 16#32) :
+    ∃ bytes k0, e.kinds = [k0, .sreg] ∧ emitX86R (movSregOpc 0x8C#32 k0) 0#32 (sid - 1#32) rb 0 0 = .ok bytes ∧
+      formOk ctx e.rule [.reg k0 rb.toNat, .reg .sreg sid.toNat] {} bytes = true := by
+  have hok := mem_chunks_ok movsr_entries_ok e ch hch he
+  unfold entryOkMovSr at hok
+  split at hok
+  · rename_i f0 f1 k0 k1 hops hkinds
+    simp only [Bool.and_eq_true, beq_iff_eq] at hok
+    obtain ⟨-, hk1, pk, hR, hA, ra, rb', n0, n1, m0, m1⟩ := hok
+    subst hk1
+    obtain ⟨A, hmask⟩ := legAgreeOk_spec _ _ hA
+    have R := legRuleOk_spec _ _ _ hR
+    have hal : alignOps e.rule.oszEff e.rule.ops [.reg k0 rb.toNat, .reg .sreg sid.toNat] = some [(f0, some (.reg k0 rb.toNat)), (f1, some (.reg .sreg sid.toNat))] := by
+      rw [hops]
+      exact alignOps2 _ _ _ _ _ (by rw [formOpMatches_reg_nofix _ _ _ _ n0]; exact m0) (by rw [formOpMatches_reg_nofix _ _ _ _ n1]; exact m1)
+    obtain ⟨bytes, hb', hf⟩ := movFromSreg_formOk ctx e.rule (movSregOpc 0x8C#32 k0) sid rb k0 f0 f1 hm64 (by simpa using R.hmodes) hmask
+      (plainKind_spec _ pk) hs1 hs6 hb R A ra rb' hal
+    exact ⟨bytes, k0, hkinds, hb', hf⟩
+  · simp at hok
+
+/-- **front_cls_correct, class X86Mov, `mov sreg, r16|r32|r64`** -/
+theorem front_cls_correct_mov_to_sreg (e : Entry) (ch : List Entry) (hch : ch ∈ lmovrsChunks) (he : e ∈ ch)
+    (ctx : Spec.X86.Ctx) (sid rb : BitVec 32) (hm64 : ctx.mode64 = true) (hs1 : 1#32 ≤ sid) (hs6 : sid ≤ 6#32) (hb : rb < 16#32) :
+    ∃ bytes k1, e.kinds = [.sreg, k1] ∧ emitX86R (movSregOpc 0x8E#32 k1) 0#32 (sid - 1#32) rb 0 0 = .ok bytes ∧
+      formOk ctx e.rule [.reg .sreg sid.toNat, .reg k1 rb.toNat] {} bytes = true := by
+  have hok := mem_chunks_ok movrs_entries_ok e ch hch he
+  unfold entryOkMovRs at hok
+  split at hok
+  · rename_i f0 f1 k0 k1 hops hkinds
+    simp only [Bool.and_eq_true, beq_iff_eq] at hok
+    obtain ⟨-, hk0, pk, hR, hA, ra, rb', n0, n1, m0, m1⟩ := hok
+    subst hk0
+    obtain ⟨A, hmask⟩ := legAgreeOk_spec _ _ hA
+    have R := legRuleOk_spec _ _ _ hR
+    have hal : alignOps e.rule.oszEff e.rule.ops [.reg .sreg sid.toNat, .reg k1 rb.toNat] = some [(f0, some (.reg .sreg sid.toNat)), (f1, some (.reg k1 rb.toNat))] := by
+      rw [hops]
+      exact alignOps2 _ _ _ _ _ (by rw [formOpMatches_reg_nofix _ _ _ _ n0]; exact m0) (by rw [formOpMatches_reg_nofix _ _ _ _ n1]; exact m1)
+    obtain ⟨bytes, hb', hf⟩ := movToSreg_formOk ctx e.rule (movSregOpc 0x8E#32 k1) sid rb k1 f0 f1 hm64 (by simpa using R.hmodes) hmask
+      (plainKind_spec _ pk) hs1 hs6 hb R A ra rb' hal
+    exact ⟨bytes, k1, hkinds, hb', hf⟩
+  · simp at hok
+
+theorem dispatch_mov_sreg (c : Model.X86.Ctx) (row : Row) (k : RegKind) (i s : Nat) (henc : row.encoding = 0x2c) (hk : k = .gpw ∨ k = .gpd ∨ k = .gpq) :
+    dispatch c row 0#32 (.reg (rtypeOf k) i) (.reg (rtypeOf .sreg) s) .none .none = emitX86R (movSregOpc 0x8C#32 k) 0#32 (r32 s - 1#32) (r32 i) 0 0 ∧
+    dispatch c row 0#32 (.reg (rtypeOf .sreg) s) (.reg (rtypeOf k) i) .none .none = emitX86R (movSregOpc 0x8E#32 k) 0#32 (r32 s - 1#32) (r32 i) 0 0 := by
+  rcases hk with h | h | h <;> subst h <;> constructor <;>
+    simp [dispatch, henc, sig3, Op.kind, Op.id, Op.rmSize, Op.isGp, rtypeOf, kindSize, movSregOpc]
+
 end AsmjitVerif.Props.C01
